@@ -276,7 +276,7 @@ class H:
         except BaseException as e:
             sim.log("svc_call_failed", svc=name, exc=describe(e))
             raise
-        sim.log("svc_reg", svc=name, ctx=cid, ret=ret)
+        sim.log("svc_reg", svc=name, ctx=cid, ret=ret, owner_view=self.view(owner))
 
     def own_td(self, c: Context, name: str, otd: dict) -> None:
         sim = self.sim
@@ -607,6 +607,14 @@ def oracle(sim: Sim, plan: dict) -> list[dict]:
                 v("C08.context", "parent", f"service task {name} runs in context fresh={d['fresh']} parent={d['parent']}, expected a fresh child of {c}")
             if d["view"] != d["owner_now"] or not set(s["call"][5]["owner_view"]) <= set(d["view"]):
                 v("C08.context", "snapshot", f"service task {name} sees {d['view']}; the owner held {d['owner_now']} when its context was created (and {s['call'][5]['owner_view']} at the call)")
+            ret = s.get("svc_reg")
+            if ret and not set(d["view"]) <= set(ret[0][5]["owner_view"]):
+                v(
+                    "C08.context",
+                    "snapshot_after_start",
+                    f"service task {name} sees {d['view']}, but when start_service_task() returned the owner held only "
+                    f"{ret[0][5]['owner_view']}: the snapshot was taken after the task had been started",
+                )
             for e in s.get("svc_body_end", []):
                 if e[5]["view"] != d["view"]:
                     v("C08.context", "snapshot_changed", f"service task {name}: visible resources changed from {d['view']} to {e[5]['view']}")
